@@ -589,3 +589,185 @@ class Reach:
             if miss:
                 missing[name] = miss
         return {'available': True, 'lines_of_modelled_functions': tot, 'lines_executed': hit, 'not_executed': missing}
+
+
+# ----------------------------------------------------------------------------- surface-syntax trees (mirror of Spec/ProForma.lean)
+
+class TreeGen:
+    """random surface-syntax trees: the Python twin of `SText` with its own `render` and `denote`
+    (independent of the library and of the Lean definitions; the three are compared on every run)"""
+
+    def __init__(self, rng, chk=None):
+        self.rng = rng
+        self.g = Gen(rng, chk)
+
+    def smod(self, brackets='[]', mult_ok=True, one_ok=True):
+        t, val = self.g.value('mixed', brackets)
+        mult = None
+        if mult_ok and self.rng.random() < 0.25:
+            mult = self.rng.choice([1, 2, 2, 3, 10, 12] if one_ok else [2, 3, 10])
+        return {'txt': t, 'mult': mult, 'val': val}
+
+    def smods(self, brackets='[]', kmin=1, kmax=3, mult_ok=True):
+        return [self.smod(brackets, mult_ok) for _ in range(self.rng.randint(kmin, kmax))]
+
+    def gmod(self):
+        r = self.rng
+        if r.random() < 0.5:
+            lab = r.choice(ISOTOPES)
+            return {'txt': lab, 'mult': r.choice([None, None, 1]), 'val': lab}
+        for _ in range(20):
+            t, _ = self.g.value('mixed', '[]')
+            rule = '[' + t + ']' + ('^2' if r.random() < 0.1 else '') + '@' + r.choice(TARGETS)
+            if _balanced(rule, '<', '>'):
+                return {'txt': rule, 'mult': None, 'val': rule}
+        return {'txt': '[Oxidation]@M', 'mult': None, 'val': '[Oxidation]@M'}
+
+    def chain(self, max_len=8):
+        r = self.rng
+        start = []
+        for _ in range(r.choice([0, 0, 1, 2, 3, 4])):
+            k = r.choice('LGUT')
+            if k == 'G' and start and start[-1][0] == 'G':
+                k = 'L'
+            if k == 'L':
+                start.append(('L', self.smod('{}')))
+            elif k == 'G':
+                start.append(('G', [self.gmod() for _ in range(r.randint(1, 3))]))
+            else:
+                start.append((k, self.smods()))
+        segs = []
+        n = r.randint(1, max_len)
+        i = 0
+        while i < n:
+            if r.random() < 0.25:
+                m = r.randint(1, min(3, n - i))
+                inner = [(r.choice(RES26), self.smods(kmin=0, kmax=2) if r.random() < 0.3 else []) for _ in range(m)]
+                segs.append(('I', r.random() < 0.4, inner, self.smods(kmin=0, kmax=2) if r.random() < 0.6 else []))
+                i += m
+            else:
+                segs.append(('R', (r.choice(RES26), self.smods(kmin=0, kmax=2) if r.random() < 0.3 else [])))
+                i += 1
+        cterm = self.smods() if r.random() < 0.3 else []
+        charge = None
+        if r.random() < 0.4:
+            ad = []
+            if r.random() < 0.5:
+                ad = [{'txt': a, 'mult': r.choice([None, None, 1]), 'val': a} for a in r.sample(ADDUCTS, r.randint(1, 2))]
+            charge = (r.choice([1, 2, 3, -1, -2, 10, 0]), r.random() < 0.3, ad)
+        return {'start': start, 'segs': segs, 'cterm': cterm, 'charge': charge}
+
+    def tree(self):
+        r = self.rng
+        k = r.choice([1, 1, 1, 2, 2, 3])
+        return [(None, self.chain())] + [(r.random() < 0.3, self.chain()) for _ in range(k - 1)]
+
+
+def _r_mod(m, o='[', c=']'):
+    return o + m['txt'] + c + ('' if m['mult'] is None else '^%d' % m['mult'])
+
+
+def _r_mods(ms, o='[', c=']'):
+    return ''.join(_r_mod(m, o, c) for m in ms)
+
+
+def tree_render(tree):
+    out = []
+    for j, ch in tree:
+        if j is not None:
+            out.append('//' if j else '+')
+        for it in ch['start']:
+            if it[0] == 'L':
+                out.append(_r_mod(it[1], '{', '}'))
+            elif it[0] == 'G':
+                out.append(_r_mods(it[1], '<', '>'))
+            elif it[0] == 'U':
+                out.append(_r_mods(it[1]) + '?')
+            else:
+                out.append(_r_mods(it[1]) + '-')
+        for sg in ch['segs']:
+            if sg[0] == 'R':
+                out.append(sg[1][0] + _r_mods(sg[1][1]))
+            else:
+                out.append('(' + ('?' if sg[1] else '') + ''.join(c + _r_mods(ms) for c, ms in sg[2]) + ')' + _r_mods(sg[3]))
+        if ch['cterm']:
+            out.append('-' + _r_mods(ch['cterm']))
+        if ch['charge'] is not None:
+            z, plus, ad = ch['charge']
+            out.append('/' + ('+' if plus and z >= 0 else '') + str(z) + _r_mods(ad))
+    return ''.join(out)
+
+
+def _d_mod(m):
+    return mk_mod(m['val'], 1 if m['mult'] is None else m['mult'])
+
+
+def chain_denote(ch):
+    _, pp, _, Interval, _ = _mods()
+    a = pp.ProFormaAnnotation(_sequence='')
+    lab, st, iso, unk, nt = [], [], [], [], []
+    for it in ch['start']:
+        if it[0] == 'L':
+            lab.append(_d_mod(it[1]))
+        elif it[0] == 'G':
+            for m in it[1]:
+                (st if '@' in m['txt'] else iso).append(_d_mod(m))
+        elif it[0] == 'U':
+            unk += [_d_mod(m) for m in it[1]]
+        else:
+            nt += [_d_mod(m) for m in it[1]]
+    seq = []
+    internal = {}
+    ivs = []
+    for sg in ch['segs']:
+        residues = [sg[1]] if sg[0] == 'R' else sg[2]
+        first = len(seq)
+        for c, ms in residues:
+            if ms:
+                internal[len(seq)] = [_d_mod(m) for m in ms]
+            seq.append(c)
+        if sg[0] == 'I':
+            ivs.append(Interval(first, len(seq), sg[1], [_d_mod(m) for m in sg[3]] or None))
+    a._sequence = ''.join(seq)
+    a._labile_mods = lab or None
+    a._static_mods = st or None
+    a._isotope_mods = iso or None
+    a._unknown_mods = unk or None
+    a._nterm_mods = nt or None
+    a._internal_mods = internal or None
+    a._intervals = ivs or None
+    a._cterm_mods = [_d_mod(m) for m in ch['cterm']] or None
+    if ch['charge'] is not None:
+        a._charge = ch['charge'][0]
+        a._charge_adducts = [_d_mod(m) for m in ch['charge'][2]] or None
+    return a
+
+
+def tree_denote(tree):
+    _, pp, _, _, _ = _mods()
+    anns = [chain_denote(ch) for _, ch in tree]
+    if len(anns) == 1:
+        return anns[0]
+    return pp.MultiProFormaAnnotation(anns, [j for j, _ in tree[1:]])
+
+
+def _w_mod(m):
+    return esc(m['txt']) + '^' + ('N' if m['mult'] is None else str(m['mult']))
+
+
+def _w_mods(ms):
+    return ';'.join(_w_mod(m) for m in ms)
+
+
+def wire_tree(tree):
+    parts = []
+    for j, ch in tree:
+        if j is not None:
+            parts.append('1' if j else '0')
+        st = '&'.join((it[0] + ':' + (_w_mod(it[1]) if it[0] == 'L' else _w_mods(it[1]))) for it in ch['start'])
+        sg = '&'.join(('R:' + esc(s[1][0]) + '=' + _w_mods(s[1][1])) if s[0] == 'R' else
+                      ('I:' + ('1' if s[1] else '0') + ':' + ','.join(esc(c) + '=' + _w_mods(ms) for c, ms in s[2]) + ':' + _w_mods(s[3]))
+                      for s in ch['segs'])
+        q = 'N' if ch['charge'] is None else '%d:%d:%s' % (ch['charge'][0], int(ch['charge'][1]), _w_mods(ch['charge'][2]))
+        parts.append('|'.join([st, sg, _w_mods(ch['cterm']), q]))
+    return '~'.join(parts)
